@@ -18,6 +18,9 @@ RULE = (
     "slices: types, primitive values, container shapes, element identities; plus repr) is unchanged, and the "
     "call's outcome (result circuit ==, generated text, used-qubit sets, probabilities and readouts with the "
     "sampler re-seeded, or the JaqalError message) equals the outcome of the same call on a freshly parsed copy.  "
+    "The result of the latest successful transformation is an input like any other: every later call is also "
+    "applied to it (so passes are chained) and must leave it unchanged too.  With a native table that lacks "
+    "prepare_all / measure_all the execution calls are made as well (they may refuse, they may not touch the table).  "
     "Non-trivial = >= 3 calls, >= 2 distinct, at least one transformation followed by a different call. "
     "distinct = (text, history)."
 )
@@ -107,6 +110,8 @@ def check(case):
         kw["inject_pulses"] = {k: v for k, v in g.items() if k not in ("prepare_all", "measure_all")}
     if mode == "native":
         kw["inject_pulses"] = gates.make_gates(case["gate_seed"])
+    n_visits_env = 0
+    if mode in ("native", "native-partial"):
         try:
             tree = refexec.expand(ref)
             acc = refexec.accept(tree)
@@ -114,6 +119,14 @@ def check(case):
                 if refexec.unrolled_size(tree) > 1500:
                     raise Skip()
                 n_visits = len(refexec.execute(tree, acc[2]))
+            # a chained circuit that went through fill_in_let(overrides) is visited as the
+            # overriding values say
+            tree_e = refexec.expand(Ref(prog, env))
+            acc_e = refexec.accept(tree_e)
+            if acc_e[0] == "ok" and not refexec.static_errors(tree_e, Ref(prog, env).reg_size()):
+                if refexec.unrolled_size(tree_e) > 1500:
+                    raise Skip()
+                n_visits_env = len(refexec.execute(tree_e, acc_e[2]))
         except Invalid:
             raise Skip()
     st_, shared = guard(parse, text, what="parse", **kw)
@@ -122,12 +135,25 @@ def check(case):
     fp0 = extract.fingerprint(shared)
     rp0 = repr(shared)
     done = []
+    chain_let = False
+    chain = None  # the result of the latest successful transformation: an input like any other
     for op in hist:
-        if op in ("run", "out") and mode != "native":
+        if op in ("run", "out") and mode == "anon":
             continue
         st_, r = _call(op, shared, env, n_visits, nq, case["np_seed"])
         got = _summary(op, st_, r)
         done.append(op)
+        if chain is not None:
+            cfp0, crp0 = extract.fingerprint(chain), repr(chain)
+            st_c, r_c = _call(op, chain, env, n_visits_env if chain_let else n_visits, nq, case["np_seed"])
+            if extract.fingerprint(chain) != cfp0 or repr(chain) != crp0:
+                raise Violation("input-modified", f"{op} modified its input, the result of an earlier pass (calls so far {done})\n--- overrides {env}\n--- program:\n{text}", where="chained:" + op)
+            if op in TRANSFORMS and st_c == "ok":
+                chain = r_c
+                chain_let = chain_let or (op == "let" and bool(env))
+        elif op in TRANSFORMS and st_ == "ok":
+            chain = r
+            chain_let = op == "let" and bool(env)
         fp1 = extract.fingerprint(shared)
         if fp1 != fp0 or repr(shared) != rp0:
             what = "repr" if fp1 == fp0 else "structure"
